@@ -1,6 +1,6 @@
 (* C12 — max_score stops the search exactly when the target is reached.
    Only statements; proofs live in proofs/C12_proofs.v. *)
-Require Import Base StopRun Converter Driver DriverObs DriverFacts StopFacts C12_proofs.
+Require Import Base StopRun Converter Driver DriverObs DriverFacts StopFacts C12_proofs PyPrims PyPrimsQ DriverGen DriverTie.
 
 (* For every optimizer (abstract record), space, objective (even call-index dependent), clock,
    prior history s and threshold m other than -inf: this call's scores sc satisfy
@@ -21,3 +21,23 @@ Proof. vm_compute. split; reflexivity. Qed.
 Example C12_truthy_zero_refuted : forall best, score_exceeded_truthy best (Some (SFin 0)) = false
                                           /\ score_exceeded (SFin 0) (Some (SFin 0)) = true.
 Proof. intros best. split; reflexivity. Qed.
+
+(* ---------- the definitions GENERATED from /repo's _stop_run.py refine the model the theorem above is about ---------- *)
+Theorem C12_source_score_exceeded_refines : forall best m, g_score_exceeded best m = Ok (score_exceeded best m).
+Proof. exact score_exceeded_tie. Qed.
+Print Assumptions C12_source_score_exceeded_refines.
+
+Theorem C12_source_check_refines : forall clk k c pa pr start best sl,
+  (forall e, st_early c = Some e -> rel_wf e /\ early_nonempty e pa pr) ->
+  g_StopRun_check clk k (stop_of c pa pr start best sl) =
+  let k' := if check_reads_clock c then S k else k in
+  match check c start (clk k) best sl with
+  | Ok b => Ok ((stop_of c pa pr start best sl, b), k')
+  | Err e => Err e
+  end.
+Proof. exact check_tie. Qed.
+Print Assumptions C12_source_check_refines.
+
+(* the translated threshold test treats 0 as a threshold (non-vacuity of the refinement on the D1 input) *)
+Example C12_source_zero_threshold : g_score_exceeded (SFin 0) (Some (SFin 0)) = Ok true.
+Proof. reflexivity. Qed.
